@@ -270,6 +270,8 @@ class Side:
                 plen = len(p.pack())
             except Exception:  # noqa: BLE001
                 plen = -1
+            if ints[0] == codec.K_MD:
+                plen = 0      # Metadata length is not modelled (exempt from the length bound)
             extra = [len(ints)] + ints + [plen]
         self.record([2], exc, ret, extra)
         return holder
@@ -520,7 +522,7 @@ class Runner:
 
     def deliver_to_dest(self, raw):
         w = self.w
-        pdu = codec.reparse(PduFactory.from_raw(raw))
+        pdu = codec.parse(raw)
         tid = (pdu.source_entity_id.value, pdu.transaction_seq_num.value)
         d = w.dst
         if d.h.state.value == 0 and tid in self.dst_done_tids:
@@ -539,7 +541,7 @@ class Runner:
 
     def deliver_to_source(self, raw):
         w = self.w
-        pdu = codec.reparse(PduFactory.from_raw(raw))
+        pdu = codec.parse(raw)
         tid = (pdu.source_entity_id.value, pdu.transaction_seq_num.value)
         s = w.src
         if s.h.state.value == 0:
